@@ -2173,30 +2173,28 @@ impl BytecodeVM {
             }
 
             Op::Lt { dst, left, right } => {
-                let left_val = self.get_reg(left).to_number();
-                let right_val = self.get_reg(right).to_number();
-                self.set_reg(dst, JsValue::Boolean(left_val < right_val));
+                let less = Self::js_less_than(interp, self.get_reg(left), self.get_reg(right), false)?;
+                self.set_reg(dst, JsValue::Boolean(less == Some(true)));
                 Ok(OpResult::Continue)
             }
 
             Op::LtEq { dst, left, right } => {
-                let left_val = self.get_reg(left).to_number();
-                let right_val = self.get_reg(right).to_number();
-                self.set_reg(dst, JsValue::Boolean(left_val <= right_val));
+                // a <= b  is  !(b < a), false when either side is NaN
+                let less = Self::js_less_than(interp, self.get_reg(left), self.get_reg(right), true)?;
+                self.set_reg(dst, JsValue::Boolean(less == Some(false)));
                 Ok(OpResult::Continue)
             }
 
             Op::Gt { dst, left, right } => {
-                let left_val = self.get_reg(left).to_number();
-                let right_val = self.get_reg(right).to_number();
-                self.set_reg(dst, JsValue::Boolean(left_val > right_val));
+                let less = Self::js_less_than(interp, self.get_reg(left), self.get_reg(right), true)?;
+                self.set_reg(dst, JsValue::Boolean(less == Some(true)));
                 Ok(OpResult::Continue)
             }
 
             Op::GtEq { dst, left, right } => {
-                let left_val = self.get_reg(left).to_number();
-                let right_val = self.get_reg(right).to_number();
-                self.set_reg(dst, JsValue::Boolean(left_val >= right_val));
+                // a >= b  is  !(a < b), false when either side is NaN
+                let less = Self::js_less_than(interp, self.get_reg(left), self.get_reg(right), false)?;
+                self.set_reg(dst, JsValue::Boolean(less == Some(false)));
                 Ok(OpResult::Continue)
             }
 
@@ -5828,6 +5826,37 @@ impl BytecodeVM {
                     Ok(Guarded::unguarded(JsValue::Undefined))
                 }
             }
+        }
+    }
+
+    /// Abstract relational comparison (ECMAScript IsLessThan).
+    /// Both operands are converted with ToPrimitive (hint "number"), left first; two strings are compared
+    /// by UTF-16 code units, anything else numerically. With `swap` the comparison is `right < left`.
+    /// Returns None when the comparison is undefined (a NaN operand).
+    fn js_less_than(
+        interp: &mut Interpreter,
+        left: &JsValue,
+        right: &JsValue,
+        swap: bool,
+    ) -> Result<Option<bool>, JsError> {
+        let left_prim = interp.coerce_to_primitive(left, "number")?;
+        let right_prim = interp.coerce_to_primitive(right, "number")?;
+        let (a, b) = if swap {
+            (&right_prim, &left_prim)
+        } else {
+            (&left_prim, &right_prim)
+        };
+        if let (JsValue::String(x), JsValue::String(y)) = (a, b) {
+            return Ok(Some(
+                x.as_str().encode_utf16().lt(y.as_str().encode_utf16()),
+            ));
+        }
+        let x = a.to_number();
+        let y = b.to_number();
+        if x.is_nan() || y.is_nan() {
+            Ok(None)
+        } else {
+            Ok(Some(x < y))
         }
     }
 
